@@ -234,9 +234,16 @@ func runC08(c *Ctx) {
 			continue
 		}
 		c.Analysed(funcKey(h))
-		walks := findLinkWalks(h, queueLinkFields)
-		c.Check(len(walks) == 1, "O5", "WALK", funcKey(h)+": updates every ancestor", h.Pos(), "walks queues[q.ParentQueue]", "the handler updates the leaf queue only: ancestors' allocations drift, their limits are not enforced")
-		es := extractEffects(fx, h, fieldNamed("Allocated", "AllocatedNotPreemptible"), preemptArm, 0)
+		// the ancestor walk: a loop in the handler, or a walking helper that calls back into the handler's closure
+		bodies := p.walkBodies(h, queueLinkFields)
+		c.Check(len(bodies) == 1, "O5", "WALK", funcKey(h)+": updates every ancestor", h.Pos(), "walks queues[q.ParentQueue]", "the handler updates the leaf queue only: ancestors' allocations drift, their limits are not enforced")
+		body, lab := h, armLabeler(preemptArm)
+		if len(bodies) == 1 && bodies[0].MC != nil {
+			wb := bodies[0]
+			body = wb.Fn
+			lab = func(f Fact) string { return preemptArm(Fact{substFree(f.T, wb.Fn, wb.MC), f.Pol}) }
+		}
+		es := extractEffects(fx, body, fieldNamed("Allocated", "AllocatedNotPreemptible"), lab, 0)
 		sign := "+"
 		if nm == "deallocateHandlerFn" {
 			sign = "-"
@@ -244,12 +251,12 @@ func runC08(c *Ctx) {
 		c.Check(hasEffect(es, "", ".Allocated", sign), "O5", "PAIR", funcKey(h)+": Allocated "+sign+" unconditionally", h.Pos(), "present", "the handler does not update Allocated for every task")
 		c.Check(hasEffect(es, "!IsPreemptibleJob", ".AllocatedNotPreemptible", sign) && !hasEffect(es, "", ".AllocatedNotPreemptible", sign) && !hasEffect(es, "IsPreemptibleJob", ".AllocatedNotPreemptible", sign),
 			"O5", "PAIR", funcKey(h)+": AllocatedNotPreemptible "+sign+" iff !IsPreemptibleJob", h.Pos(), "guarded by !IsPreemptibleJob()", "AllocatedNotPreemptible is not updated exactly for non-preemptible jobs")
-		if len(walks) == 1 {
+		if len(bodies) == 1 && bodies[0].MC == nil {
 			for _, e := range es {
-				c.Check(walks[0].Header.Dominates(e.Block), "O5", "MPT", funcKey(h)+": "+e.Target+" updated inside the ancestor walk", e.Pos, "inside the walk", "a queue counter is updated outside the ancestor walk")
+				c.Check(bodies[0].Walk.Header.Dominates(e.Block), "O5", "MPT", funcKey(h)+": "+e.Target+" updated inside the ancestor walk", e.Pos, "inside the walk", "a queue counter is updated outside the ancestor walk")
 			}
 		}
-		c.Check(hasRangeOverGlobal(h, "AllResources"), "O5", "MPT", funcKey(h)+": iterates rs.AllResources", h.Pos(), "all resources", "the handler does not update all resources")
+		c.Check(hasRangeOverGlobal(body, "AllResources"), "O5", "MPT", funcKey(h)+": iterates rs.AllResources", h.Pos(), "all resources", "the handler does not update all resources")
 	}
 
 	// ---- O6: units — queue memory quota/limit are scaled by the API's unit (10^6 bytes)
